@@ -85,21 +85,4 @@ def stepShare (s : SWorld) : List String → Option (SWorld × String)
     | none, some i => ({ s1 with cell := s1.cell.set i s1.next, next := s1.next + 1 }, r.2)
     | none, none => (s1, r.2)
 
-namespace Bad
-/-- The defect class of a *memoised* hash: a grid remembers the hash input it computed and drops it
-only when its own API changes the coordinates. -/
-structure MGrid where
-  grid : Grid
-  memo : Option (List Tok) := none
-
-/-- `hash(g)`: the remembered value if there is one -/
-def MGrid.hash (m : MGrid) : List Tok × MGrid :=
-  match m.memo with
-  | some h => (h, m)
-  | none => (m.grid.hashInput, { m with memo := some m.grid.hashInput })
-
-/-- another holder wrote through the shared `Coords` object: the coordinates follow, the memo stays -/
-def MGrid.follow (m : MGrid) (co : Coords) : MGrid := { m with grid := { m.grid with coords := co } }
-end Bad
-
 end HcipyVerif.Grid
